@@ -436,6 +436,13 @@ def file_t2data(ctx, rng, v, i):
         dat.add_generator(g_)
         gens.append((gname, n_, list(g_.time), list(g_.rate), list(g_.enthalpy)))
     case['generator_table_lengths'] = [g_[1] for g_ in gens]
+    # a MINC mesh-maker record: keyword, type, a spacer the record only has blanks for, and the DUAL word after it
+    mm = None
+    if i % 4 == 1:
+        mm = {'type': ['ONE-D', 'THRED'][(i // 4) % 2], 'dual': ['MMALL', 'MMVER', 'DFLT ', '     '][(i // 8) % 4], 'num_continua': 2,
+              'where': 'OUT ', 'spacing': [50.0, 20.0][:1 + (i // 4) % 2], 'vol': [0.1, 0.9]}
+        dat.meshmaker = [('minc', dict(mm, spacing=list(mm['spacing']), vol=list(mm['vol'])))]
+        case['minc_record'] = mm
     fn = os.path.join(ctx.tmp, 'c02_%d.dat' % i)
     # every third group of cases through the extra-precision auxiliary file (AUTOUGH2): its records are 105-115 columns
     # wide, the values beyond column 80 must come back like the others
@@ -498,6 +505,12 @@ def file_t2data(ctx, rng, v, i):
                 r.pop()
             return len(w) == len(r) and all((a is None and b is None) or (a is not None and b is not None and float('%20.13e' % a) == b)
                                             for a, b in zip(w, r))
+        if mm is not None:
+            ctx.count('mesh_maker_records_read_back')
+            got_mm = [x for x in back.meshmaker if x[0] == 'minc']
+            if len(got_mm) != 1 or (got_mm[0][1].get('dual') or '').strip() != mm['dual'].strip() or (got_mm[0][1].get('type') or '').strip() != mm['type'].strip() \
+                    or [float(x) for x in got_mm[0][1].get('vol', [])] != mm['vol']:
+                ctx.violation('file:t2data-meshmaker-record', 'MINC mesh-maker data wrote %r read %r' % (mm, got_mm and got_mm[0][1]), case)
         ctx.count('generator_tables_read_back', len(gens))
         gb = [(g_.name, g_.ltab, [float(x) for x in g_.time], [float(x) for x in g_.rate], [float(x) for x in g_.enthalpy]) for g_ in back.generatorlist]
         if [x[0] for x in gb] != [x[0] for x in gens] or any(a[2:] != b[2:] for a, b in zip(gens, gb)):
